@@ -30,6 +30,8 @@ fn main() {
     }
     ba_harness::world::quiet_panics();
     let report = match prop.as_str() {
+        "c09" => props::c09::run(&cfg),
+        "c10" => props::c10::run(&cfg),
         "c16" => props::c16::run(&cfg),
         _ => { eprintln!("unknown property {}", prop); std::process::exit(2); }
     };
